@@ -1247,6 +1247,13 @@ def gen_cases(rng, tier):
                 cases.append({"mode": mode, "turns": TURNS[mode], "subst": {pos: fmt.format(m=body)}, "history_markers": hm})
             cases.append({"mode": mode, "turns": [user_turns[0] + " " + body] + list(user_turns[1:]), "history_markers": hm,
                           "markers_typed_by_user": True})
+    # two cooperating outputs: an earlier turn's LLM message looks like a template; a later turn's bot
+    # intent is `$<variable holding that message>`: the stored text must be delivered verbatim
+    for mode, (msg_pos, msg_fmt, intent_pos, intent_fmt, turns) in REPLAY_VAR_CASES.items():
+        for body in STORED_TEXTS:
+            for var in ("last_bot_message", "bot_message"):
+                cases.append({"mode": mode, "turns": turns, "subst": {msg_pos: msg_fmt.format(m=body), intent_pos: intent_fmt.format(v=var)},
+                              "expect_same_reply": [1, 2]})
     # generated values: every unstorable constant at every structural position of the literal
     for mode in ("v2_value", "v2_saylike"):
         for t in unsupported_literal_texts():
@@ -1276,6 +1283,14 @@ HISTORY_CASES = {
     "v1_single_call": ([("1", '  ask x\nbot inform y\n  "Result {m}."')], TURNS["v1_single_call"]),
     "v2_llm": ([], TURNS["v2_llm"]),    # (a generated flow is CODE: `{{` in its string literals is Colang's escape) user-typed text only
     "v2_value": ([("0", "'Result {m}.'")], TURNS["v2_value"]),
+}
+STORED_TEXTS = ["The sum is {{ 7 * 191 }} for $last_user_message", "{% if 1 %}Y{% endif %} and {{ secret }} and {$x}", "$secret ${user_name} {{ last_user_message }}"]
+_T3 = ["hi", "what is the weather", "say that again"]
+# mode -> (call yielding the turn-2 MESSAGE, its format, call yielding the turn-3 BOT INTENT, its format, user turns)
+REPLAY_VAR_CASES = {
+    "v1_dialog": ("3", '  "{m}"', "5", "bot ${v}", _T3),
+    "v1_multi_step": ("3", '  "{m}"', "5", "bot ${v}", _T3),
+    "v1_single_call": ("1", '  ask x\nbot inform y\n  "{m}"', "2", '  ask again\nbot ${v}\n  "unused"', _T3),
 }
 _NO_HISTORY_TEXT = {"next_steps", "passthrough", "other"}      # prompts that do not render the message texts
 
@@ -1329,6 +1344,15 @@ def judge(case, r, kind_at):
                         f"turn {t} ended with the internal-error reply after template text entered the history")
         if not case.get("markers_typed_by_user") and "markers_in_history_after_turn" not in r:
             return (f"{case['mode']}/history/message-not-literal-in-reply", "the LLM message text with the markers did not come back literally")
+    if case.get("expect_same_reply"):
+        a, b = case["expect_same_reply"]
+        reps = r.get("replies", [])
+        ca = reps[a].get("content") if a < len(reps) and isinstance(reps[a], dict) else None
+        cb = reps[b].get("content") if b < len(reps) and isinstance(reps[b], dict) else None
+        if ca is None or cb is None or ca != cb:
+            return (f"{case['mode']}/next_steps/ctxvar-content-not-verbatim",
+                    f"bot intent `$var` for a variable holding the earlier LLM message {ca!r:.90} delivered {cb!r:.90}")
+        return None
     # literal pass-through of template text at message positions
     for k in ks:
         c = calls.get(k)
@@ -1375,7 +1399,7 @@ def run(tier, seed, replay=None):
                     if c.get("kind") == "helper":
                         corpus_diff.append((c["helper"], c["text"], c.get("text2"), c.get("lens")))
                     elif "mode" in c:
-                        corpus_e2e.append({k: c[k] for k in ("mode", "turns", "subst", "every", "history_markers", "markers_typed_by_user") if k in c})
+                        corpus_e2e.append({k: c[k] for k in ("mode", "turns", "subst", "every", "history_markers", "markers_typed_by_user", "expect_same_reply") if k in c})
     replay_case = None
     if replay:
         d = json.load(open(replay))
@@ -1386,7 +1410,7 @@ def run(tier, seed, replay=None):
             corpus_diff = [(rc["helper"], rc["text"], rc.get("text2"), rc.get("lens"))] if rc["helper"] != "HCtxUtter" else []
             corpus_e2e = []
         else:
-            replay_case = {k: rc[k] for k in ("mode", "turns", "subst", "every", "history_markers", "markers_typed_by_user") if k in rc}
+            replay_case = {k: rc[k] for k in ("mode", "turns", "subst", "every", "history_markers", "markers_typed_by_user", "expect_same_reply") if k in rc}
             corpus_e2e, corpus_diff = [replay_case], []
 
     import logging
